@@ -110,6 +110,14 @@ pub fn replay() {
                         if dts.as_secs() != ts.seconds() || (dts.subsec_millis() / 4) as u8 != ts.fractional() {
                             why.push("datacake_timestamp() disagrees with seconds()/fractional()".into());
                         }
+                        // the two clock readings a stamp offers differ by the epoch, nothing else
+                        if ts.unix_timestamp() != dts + datacake_crdt::DATACAKE_EPOCH {
+                            why.push("unix_timestamp() is not datacake_timestamp() plus the epoch".into());
+                        }
+                        // a stamp built from its own reading is itself
+                        if HLCTimestamp::new(dts, ts.counter(), ts.node()) != ts {
+                            why.push("HLCTimestamp::new(datacake_timestamp(), counter(), node()) is another stamp".into());
+                        }
                         // drift: exact packed layout and text against the specification
                         if limbs(ts.as_u64()) != e["limbs"] || chars(&text) != e["text"] {
                             sum.drift(json!({"what": "packed layout or text differs from the specification", "vec": e, "observed": observed}));
